@@ -3022,3 +3022,14 @@ V(id='c24-rs-z-overflow-reraised-as-undocumented', prop='C24', file='mpmath/func
 V(id='c24-benign-rs-z-overflow-as-valueerror', prop='C24', file='mpmath/functions/rszeta.py',
   old="            return z_offline(ctx, w, derivative)\n    except OverflowError:\n        raise NotImplementedError(\"Riemann-Siegel can not compute with such sigma\")\n",
   new="            return z_offline(ctx, w, derivative)\n    except ArithmeticError:\n        raise ValueError(\"sigma too large\")\n", expect='silent')
+
+# ---- C24 T-R16 (fourth hunt; fix a950b2b) ----
+V(id='c24-rs-term-count-unbounded', prop='C24', file='mpmath/functions/rszeta.py',
+  old="        L = L+1\n        if 3*L >= 2*a*a/25.:\n            # (condition (20) below has failed already, and this bound,\n            # of a divergent series, need never get below eps2)\n            ctx.prec = wpinitial\n            raise NotImplementedError(\"Riemann-Siegel can not compute with such precision\")\n",
+  new="        L = L+1\n", expect='fire:T-R16:Rzeta_set')
+V(id='c24-rs-term-count-x-unbounded', prop='C24', file='mpmath/functions/rszeta.py',
+  old="        xL = xL+1\n        if 3*xL >= 2*a*a/25.:\n            # (condition (20) below has failed already, and this bound,\n            # of a divergent series, need never get below eps2)\n            ctx.prec = wpinitial\n            raise NotImplementedError(\"Riemann-Siegel can not compute with such precision\")\n",
+  new="        xL = xL+1\n", expect='fire:T-R16:Rzeta_simul')
+V(id='c24-benign-rs-term-count-break', prop='C24', file='mpmath/functions/rszeta.py',
+  old="        L = L+1\n        if 3*L >= 2*a*a/25.:\n            # (condition (20) below has failed already, and this bound,\n            # of a divergent series, need never get below eps2)\n            ctx.prec = wpinitial\n            raise NotImplementedError(\"Riemann-Siegel can not compute with such precision\")\n",
+  new="        L = L+1\n        if 3*L >= 2*a*a/25.:\n            break\n", expect='silent')
